@@ -6,6 +6,7 @@ mod diag;
 mod gsd;
 mod prm;
 mod dp;
+mod fuzz;
 mod ring;
 mod rx;
 mod single;
@@ -33,6 +34,7 @@ fn main() {
         "gsd" => gsd::run(&args),
         "sweep" => sweep::run(&args),
         "single" => single::run(&args),
+        "fuzz" => fuzz::run(&args),
         _ => {
             eprintln!("usage: pbv <codec|...> --out FILE --seed N --tier quick|thorough");
             std::process::exit(2);
